@@ -88,12 +88,13 @@ theorem isMatKind_ne_tv {k : RKind} (h : isMatKind k = true) : k ≠ .tv := by
 
 /-! ### what `opOk` guarantees -/
 
+/-- (`t = s` is allowed: an object may be its own argument; the third component is kept as `True` for the callers' patterns) -/
 theorem pair_facts (st : SeqState K) (op : OpK) (t s : Nat) (h : opOk.pair st op t s = true) :
-    t < st.size ∧ s < st.size ∧ t ≠ s ∧ st.kind t ≠ .tv ∧ st.kind s ≠ .tv
+    t < st.size ∧ s < st.size ∧ True ∧ st.kind t ≠ .tv ∧ st.kind s ≠ .tv
     ∧ st.lrows t = st.lrows s ∧ (st.rd t).cols = (st.rd s).cols := by
   simp only [opOk.pair, Bool.and_eq_true, Bool.or_eq_true, decide_eq_true_eq, bne_iff_ne, ne_eq, beq_iff_eq] at h
-  obtain ⟨⟨⟨⟨⟨ht, hs⟩, hne⟩, hr⟩, hc⟩, hk⟩ := h
-  refine ⟨ht, hs, hne, ?_, ?_, hr, hc⟩
+  obtain ⟨⟨⟨⟨ht, hs⟩, hr⟩, hc⟩, hk⟩ := h
+  refine ⟨ht, hs, trivial, ?_, ?_, hr, hc⟩
   · rcases hk with hk | hk
     · exact isVecKind_ne_tv hk.1.1.1.1
     · exact isMatKind_ne_tv hk.1.1
